@@ -242,13 +242,15 @@ func (cfg Config) Build(opts ...Option) (*Logger, error) {
 		return nil, err
 	}
 
+	// Validate the level before opening any sink: nothing below can fail
+	// once the sinks are open, so an error never leaves them open.
+	if cfg.Level == (AtomicLevel{}) {
+		return nil, errors.New("missing Level")
+	}
+
 	sink, errSink, err := cfg.openSinks()
 	if err != nil {
 		return nil, err
-	}
-
-	if cfg.Level == (AtomicLevel{}) {
-		return nil, errors.New("missing Level")
 	}
 
 	log := New(
